@@ -91,6 +91,25 @@ pub enum WalRecord {
         /// Transaction ID at checkpoint.
         tx_id: TxId,
     },
+
+    /// Remove a property from a node.
+    ///
+    /// Appended after the original variants so that logs written before it
+    /// existed still decode.
+    RemoveNodeProperty {
+        /// Node ID.
+        id: NodeId,
+        /// Property key.
+        key: String,
+    },
+
+    /// Remove a property from an edge.
+    RemoveEdgeProperty {
+        /// Edge ID.
+        id: EdgeId,
+        /// Property key.
+        key: String,
+    },
 }
 
 #[cfg(test)]
